@@ -7,40 +7,35 @@ From VT Require Import Admin.AdminSpec Admin.Gen_admin Admin.AdminProofs Admin.A
 Open Scope N_scope.
 
 (* ---------------- authentication ---------------- *)
-(* threaded class.  For ALL oracles (what the predicate returns / raises, whether it is a coroutine
-   function, what the services called afterwards return), configurations, sids, environs and
-   payloads: admin_connect returns iff the attempt is accepted in the property's sense; a refusal
-   is ConnectionRefusedError whenever the configuration is False / dict / list / predicate and the
-   predicate returns; an exception of the predicate propagates unchanged. *)
+(* threaded class.  For ALL oracles (what calling the predicate returns / raises, what awaiting a
+   coroutine yields, what the services called afterwards return), configurations (any four values),
+   sids, environs and payloads: admin_connect returns iff the attempt is accepted in the property's
+   sense - authentication disabled, or dict and ==, or list and a member ==, or the predicate returns a
+   truthy value WITHOUT RAISING; EVERY other attempt raises ConnectionRefusedError. *)
 Theorem C18_auth : forall (o : oracle) (c : acfg) (sid env : pv),
   ext_total o ->
   forall a : pv,
     (InstrumentedServer_admin_connect o (mk_admin_self c) sid env a = Ok PNone
        <-> accepted_by (pred_sync o) (a_auth c) a) /\
-    (cfg_in_domain (a_auth c) -> pred_returns (pred_sync o) (a_auth c) a ->
-     ~ accepted_by (pred_sync o) (a_auth c) a ->
-     InstrumentedServer_admin_connect o (mk_admin_self c) sid env a = Err ConnectionRefused) /\
-    (forall n e, a_auth c = PObj n -> pred_sync o (a_auth c) a = Err e ->
-     InstrumentedServer_admin_connect o (mk_admin_self c) sid env a = Err e).
+    (~ accepted_by (pred_sync o) (a_auth c) a ->
+     InstrumentedServer_admin_connect o (mk_admin_self c) sid env a = Err ConnectionRefused).
 Proof. exact auth_sync. Qed.
 Print Assumptions C18_auth.
 
-(* asyncio class: same statement, the predicate's awaited result counts *)
+(* asyncio class: same statement; the predicate's value is the call's result, awaited when
+   asyncio.iscoroutine says it is a coroutine (pred_async) *)
 Theorem C18_auth_async : forall (o : oracle) (c : acfg) (sid env : pv),
   ext_total o ->
   forall a : pv,
     (InstrumentedAsyncServer_admin_connect o (mk_admin_self c) sid env a = Ok PNone
        <-> accepted_by (pred_async o) (a_auth c) a) /\
-    (cfg_in_domain (a_auth c) -> pred_returns (pred_async o) (a_auth c) a ->
-     ~ accepted_by (pred_async o) (a_auth c) a ->
-     InstrumentedAsyncServer_admin_connect o (mk_admin_self c) sid env a = Err ConnectionRefused) /\
-    (forall n e, a_auth c = PObj n -> pred_async o (a_auth c) a = Err e ->
-     InstrumentedAsyncServer_admin_connect o (mk_admin_self c) sid env a = Err e).
+    (~ accepted_by (pred_async o) (a_auth c) a ->
+     InstrumentedAsyncServer_admin_connect o (mk_admin_self c) sid env a = Err ConnectionRefused).
 Proof. exact auth_async. Qed.
 Print Assumptions C18_auth_async.
 
 Theorem C18_auth_sync_async_same : forall o c sid env a,
-  ext_total o -> o_iscoro o (a_auth c) = false ->
+  ext_total o -> (forall r, o_call o (a_auth c) [a] = Ok r -> o_iscoroutine o r = false) ->
   InstrumentedServer_admin_connect o (mk_admin_self c) sid env a =
   InstrumentedAsyncServer_admin_connect o (mk_admin_self c) sid env a.
 Proof. exact auth_sync_async_same. Qed.
@@ -62,15 +57,31 @@ Theorem C18_auth_falsy_configuration_disables : forall o c sid env a,
 Proof. exact falsy_configuration_disables. Qed.
 Print Assumptions C18_auth_falsy_configuration_disables.
 
-(* "every other attempt is refused" is FALSE when the configured predicate raises: the exception is
-   not turned into ConnectionRefusedError (finding predicate-raises-admin-membership-kept) *)
-Theorem C18_auth_raising_predicate_refuted :
-  exists o c sid env a e,
-    ext_total o /\ e <> ConnectionRefused /\
-    InstrumentedServer_admin_connect o (mk_admin_self c) sid env a = Err e /\
-    InstrumentedAsyncServer_admin_connect o (mk_admin_self c) sid env a = Err e.
-Proof. exact auth_predicate_exception_not_refused. Qed.
-Print Assumptions C18_auth_raising_predicate_refuted.
+(* a predicate that raises REFUSES, in both classes; in the asyncio class also when awaiting its
+   coroutine raises (since d0b00fa; was finding predicate-raises-admin-membership-kept) *)
+Theorem C18_auth_raising_predicate_refuses : forall o n ro mode ns sid env a e,
+  ext_total o ->
+  (o_call o (PObj n) [a] = Err e ->
+   InstrumentedServer_admin_connect o (mk_admin_self (mkACfg (PObj n) ro mode ns)) sid env a = Err ConnectionRefused /\
+   InstrumentedAsyncServer_admin_connect o (mk_admin_self (mkACfg (PObj n) ro mode ns)) sid env a = Err ConnectionRefused) /\
+  (forall r, o_call o (PObj n) [a] = Ok r -> o_iscoroutine o r = true -> o_await o r = Err e ->
+   InstrumentedAsyncServer_admin_connect o (mk_admin_self (mkACfg (PObj n) ro mode ns)) sid env a = Err ConnectionRefused).
+Proof. exact auth_raising_predicate_refuses. Qed.
+Print Assumptions C18_auth_raising_predicate_refuses.
+
+(* the asyncio class awaits a coroutine result whatever callable produced it (coroutine function,
+   object with async __call__, function returning a coroutine) and decides on the awaited value
+   (since d0b00fa; was finding async-callable-predicate-never-awaited) *)
+Theorem C18_auth_async_awaits_coroutine_results : forall o n ro mode ns sid env a r,
+  ext_total o -> o_call o (PObj n) [a] = Ok r ->
+  InstrumentedAsyncServer_admin_connect o (mk_admin_self (mkACfg (PObj n) ro mode ns)) sid env a =
+  (if o_iscoroutine o r
+   then match o_await o r with
+        | Ok v => if truthy v then Ok PNone else Err ConnectionRefused
+        | Err _ => Err ConnectionRefused end
+   else if truthy r then Ok PNone else Err ConnectionRefused).
+Proof. exact async_awaits_coroutine_results. Qed.
+Print Assumptions C18_auth_async_awaits_coroutine_results.
 
 (* ---------------- refused => no membership ---------------- *)
 Theorem C18_refused_no_membership : forall (c : cfg) (h : N) (ra : list pv),
@@ -103,16 +114,17 @@ Theorem C18_refused_no_membership_manager : forall m eio ns sid m1 r mmid,
 Proof. exact refused_no_membership_mgr. Qed.
 Print Assumptions C18_refused_no_membership_manager.
 
-(* and the other half of the finding: an exception other than ConnectionRefusedError in the connect
-   handler leaves the membership manager.connect created, and nothing is answered *)
-Theorem C18_nonrefusal_exception_keeps_membership_refuted :
+(* why the previous theorem matters: on the server model an exception OTHER than ConnectionRefusedError in
+   a connect handler leaves the membership manager.connect created and answers nothing (C04 keeps such
+   handlers outside its domain); admin_connect can no longer end that way (C18_auth: Ok or refusal) *)
+Theorem C18_server_keeps_membership_on_other_exceptions :
   exists c s eio ns data sid,
     let '(s', effs, r) := handle_connect c eio (Some ns) data s in
     r = Err KeyError /\ eio_from_sid (mg s') sid ns = Some eio /\
     is_connected (mg s') (Some sid) ns = true /\
     (forall e p, In (Out e p) effs -> False).
 Proof. exact nonrefusal_exception_keeps_membership. Qed.
-Print Assumptions C18_nonrefusal_exception_keeps_membership_refuted.
+Print Assumptions C18_server_keeps_membership_on_other_exceptions.
 
 (* ---------------- read-only ---------------- *)
 (* the registration block of both classes, for ALL configurations: the handlers registered on the
@@ -184,17 +196,24 @@ Theorem C18_transparent_emit_empty_room_list_refuted :
 Proof. exact emit_empty_room_list_refuted. Qed.
 Print Assumptions C18_transparent_emit_empty_room_list_refuted.
 
-(* the premise `encodable` is necessary (finding binary-event-dropped-while-admin-connected): with an
-   admin connected, an event that carries bytes never reaches its handler on the wrapped server *)
-Theorem C18_transparent_binary_event_refuted :
-  exists args,
-    adm_isolated WrappersProofs.ex_adm [s2l "e9"] ex_state2 /\
-    trigger_event ex_app_cfg (PStr (s2l "ev")) (s2l "/") args ex_state2
-      = (ex_state2, [Call 1 args], Ok (Some (PStr (s2l "ok")))) /\
-    w_trigger_event ex_app_cfg WrappersProofs.ex_adm (PStr (s2l "t")) (fun _ _ => PNone) (PStr (s2l "ev")) (s2l "/") args ex_state2
-      = (ex_state2, [], Err TypeError).
-Proof. exact binary_event_dropped_refuted. Qed.
-Print Assumptions C18_transparent_binary_event_refuted.
+(* events that carry bytes (since 34a4987; was finding binary-event-dropped-while-admin-connected): the
+   report is a BINARY_EVENT, encodable, delivered to the admin with its attachments, and the application
+   handler runs as on the plain server *)
+Theorem C18_transparent_binary_event :
+  trigger_event ex_app_cfg (PStr (s2l "ev")) (s2l "/") ex_bin_args ex_state2
+    = (ex_state2, [Call 1 ex_bin_args], Ok (Some (PStr (s2l "ok")))) /\
+  transparent [s2l "e9"] (fun s => s = ex_state2)
+    (trigger_event ex_app_cfg (PStr (s2l "ev")) (s2l "/") ex_bin_args)
+    (w_trigger_event ex_app_cfg WrappersProofs.ex_adm ex_stamp ex_ser (PStr (s2l "ev")) (s2l "/") ex_bin_args) /\
+  (let effs := snd (fst (w_trigger_event ex_app_cfg WrappersProofs.ex_adm ex_stamp ex_ser (PStr (s2l "ev")) (s2l "/") ex_bin_args ex_state2)) in
+   List.length effs = 4%nat /\
+   match effs with
+   | Out e (PStr (t :: n :: _)) :: Out _ (PBytes b1) :: Out _ (PBytes b2) :: Call 1 a :: nil =>
+       e = s2l "e9" /\ t = 53 /\ n = 50 /\ b1 = [1] ++ [2] /\ b2 = [255] /\ a = ex_bin_args
+   | _ => False
+   end).
+Proof. exact binary_event_delivered. Qed.
+Print Assumptions C18_transparent_binary_event.
 
 (* ---------------- the checkers applied to implementation traces mean what they say ---------------- *)
 Theorem C18_checker_sound_transparency : forall A adm plain instr admin_ops dplain dinstr,
@@ -205,8 +224,8 @@ Theorem C18_checker_sound_transparency : forall A adm plain instr admin_ops dpla
 Proof. exact tr_ok_sound. Qed.
 Print Assumptions C18_checker_sound_transparency.
 
-Theorem C18_checker_sound_auth : forall is_async cfg a call iscoro observed,
-  tv_spec_ok is_async cfg a call iscoro observed = true ->
-  observed = auth_outcome (class_pred is_async (case_oracle call iscoro)) (a_auth cfg) a.
+Theorem C18_checker_sound_auth : forall is_async cfg a call iscoro awaited observed,
+  tv_spec_ok is_async cfg a call iscoro awaited observed = true ->
+  observed = auth_outcome (class_pred is_async (case_oracle call iscoro awaited)) (a_auth cfg) a.
 Proof. exact tv_spec_ok_sound. Qed.
 Print Assumptions C18_checker_sound_auth.
